@@ -33,10 +33,13 @@ where
         let mut purified_cstore = ConstraintStore::new();
         for constraint in self.0.into_iter() {
             if let Some(tree_constraint) = constraint.downcast_ref::<DisequalityConstraint<U, E>>() {
+                // A constraint is relevant only if every variable it mentions is reified; a
+                // constraint on a variable that is not part of the answer can always be
+                // satisfied and must not leak unreified variables into the result.
                 if tree_constraint
                     .smap_ref()
                     .iter()
-                    .any(|(u, _)| r.is_anyvar(u))
+                    .all(|(u, v)| r.is_anyvar(u) && r.is_closed(v))
                 {
                     purified_cstore.insert(constraint);
                 }
